@@ -3,6 +3,7 @@ package main
 import (
 	"go/token"
 	"sort"
+	"strings"
 
 	"golang.org/x/tools/go/ssa"
 )
@@ -117,6 +118,72 @@ func lockBalance(e *LockEngine, fns []*ssa.Function) lbResult {
 		}
 	}
 	return res
+}
+
+// lbOpaque reports why the exits of fn cannot be judged, or "": lock
+// operations the engine cannot attribute to a lock, releases that may happen
+// through function values (a bound Unlock method value created in fn, or a
+// call through a function value that comes from a field, a global or a table
+// rather than from a parameter or a literal closure), and closures that are
+// part of their parent's flow (deferred or called in place: the parent decides
+// what its exits hold) — only top-level functions and goroutine bodies are
+// judged on their own.
+func lbOpaque(e *LockEngine, fn *ssa.Function) string {
+	if fn.Parent() != nil {
+		isGo := false
+		for _, b := range fn.Parent().Blocks {
+			for _, in := range b.Instrs {
+				if g, ok := in.(*ssa.Go); ok {
+					if mc, ok := g.Call.Value.(*ssa.MakeClosure); ok && mc.Fn == fn {
+						isGo = true
+					}
+					if g.Call.Value == ssa.Value(fn) {
+						isGo = true
+					}
+				}
+			}
+		}
+		if !isGo {
+			return "a closure that runs as part of its parent (deferred or called in place)"
+		}
+	}
+	for _, b := range fn.Blocks {
+		for _, in := range b.Instrs {
+			switch x := in.(type) {
+			case *ssa.MakeClosure:
+				if f, ok := x.Fn.(*ssa.Function); ok && f.Synthetic != "" {
+					n := f.Name()
+					if strings.HasSuffix(n, "Unlock$bound") || strings.HasSuffix(n, "RUnlock$bound") {
+						return "an Unlock method value is created here: the release may happen through it"
+					}
+				}
+			case ssa.CallInstruction:
+				c := x.Common()
+				if _, _, ok := e.lockOp(x); ok {
+					continue
+				}
+				if isLockName(x) {
+					return "a lock operation whose lock the engine cannot identify"
+				}
+				if c.IsInvoke() || staticCallee(x) != nil {
+					if f := staticCallee(x); f != nil && f.Synthetic != "" && (strings.HasSuffix(f.Name(), "Unlock$bound") || strings.HasSuffix(f.Name(), "RUnlock$bound")) {
+						return "a bound Unlock method value is called here"
+					}
+					continue
+				}
+				if _, isBuiltin := c.Value.(*ssa.Builtin); isBuiltin {
+					continue
+				}
+				switch v := c.Value.(type) {
+				case *ssa.Parameter, *ssa.MakeClosure, *ssa.FreeVar:
+					_ = v // a caller-supplied callback or a literal closure: not a hidden release
+				default:
+					return "a call through a function value that comes from memory (field, table, result): it may release the lock"
+				}
+			}
+		}
+	}
+	return ""
 }
 
 // lbOwnAcquires: locks acquired by fn itself (directly or through a static
